@@ -7,6 +7,29 @@ use zverif::{Outcome, Tier};
 pub const BOUNDARY: [u8; 18] = [0x00, 0x41, 0x7F, 0x80, 0x8F, 0x90, 0x9F, 0xA0, 0xBF, 0xC0, 0xC2, 0xE0, 0xED, 0xEF, 0xF0, 0xF4, 0xF5, 0xFF];
 pub const OFFSETS: [u32; 4] = [0, 13, 29, 61];
 const PADDED_LEN: usize = 96;
+/// content class of the UTF-8 length grid added by the coverage audit (CONTENTS = 0,1,2 stay as they were)
+pub const C_MIXED: u8 = 3;
+
+/// exactly `n` bytes of valid UTF-8 cycling through characters of every width, including the first and the last
+/// code point of each width and both sides of the surrogate gap; the cycle starts at index n % 10 so that different
+/// lengths put the multi-byte characters at different phases relative to the 8/16/32/64-byte vector chunks; the
+/// tail is padded with 'z' when the next character does not fit
+pub fn utf8_mixed(n: usize) -> Vec<u8> {
+    const CYCLE: [char; 10] = ['a', '\u{80}', '\u{800}', '\u{10000}', 'b', '\u{7FF}', '\u{D7FF}', '\u{10FFFF}', '\u{E000}', '\u{FFFF}'];
+    let mut v = Vec::with_capacity(n);
+    let mut i = n % 10;
+    let mut tmp = [0u8; 4];
+    while v.len() < n {
+        let e = CYCLE[i % 10].encode_utf8(&mut tmp).as_bytes();
+        if v.len() + e.len() <= n {
+            v.extend_from_slice(e);
+        } else {
+            v.push(b'z');
+        }
+        i += 1;
+    }
+    v
+}
 
 #[derive(Debug, PartialEq, Clone)]
 pub enum U8Out {
@@ -81,6 +104,15 @@ pub fn utf8_spec(name: &str, kind: U8Kind, f: U8Fn, isolate: bool) -> Spec {
                 }
             }
         }
+        // (coverage audit) the same grid with mixed-width text: 1/2/3/4-byte characters incl. the first and last code
+        // point of every width, phase rotated with the length
+        for n in all_lens() {
+            for a in one_aligns(tier) {
+                if !out(Case { n, a, c: C_MIXED, v: 2, ..Default::default() }) {
+                    return;
+                }
+            }
+        }
     };
     let run = move |case: &Case| -> Outcome {
         let judge = |buf: &[u8], what: &str| -> Option<Outcome> {
@@ -103,10 +135,29 @@ pub fn utf8_spec(name: &str, kind: U8Kind, f: U8Fn, isolate: bool) -> Spec {
         };
         if case.v == 2 {
             let n = case.n as usize;
-            let base = content_str(case.c, n);
+            let base = if case.c == C_MIXED { utf8_mixed(n) } else { content_str(case.c, n) };
             let buf = place(0, case.a, &base);
             if let Some(o) = judge(buf, "valid text") {
                 return o;
+            }
+            if case.c == C_MIXED {
+                // every character replaced, one at a time, by an INVALID sequence of the same length and shape
+                // (lone continuation / overlong / surrogate / beyond U+10FFFF)
+                let starts: Vec<(usize, usize)> = as_str(&base).char_indices().map(|(i, ch)| (i, ch.len_utf8())).collect();
+                for (i, w) in starts {
+                    arena().progress(i as u64);
+                    let bad: &[u8] = match w {
+                        1 => &[0x80],
+                        2 => &[0xC0, 0xAF],
+                        3 => &[0xED, 0xA0, 0x80],
+                        _ => &[0xF4, 0x90, 0x80, 0x80],
+                    };
+                    buf[i..i + w].copy_from_slice(bad);
+                    if let Some(o) = judge(buf, &format!("{w}-byte character at {i} replaced by {}", hex(bad))) {
+                        return o;
+                    }
+                    buf[i..i + w].copy_from_slice(&base[i..i + w]);
+                }
             }
             // one invalid byte at every position
             for p in 0..n {
@@ -124,7 +175,7 @@ pub fn utf8_spec(name: &str, kind: U8Kind, f: U8Fn, isolate: bool) -> Spec {
                     return o;
                 }
             }
-            return if n == 0 { Outcome::trivial("n=0") } else { Outcome::pass(&format!("grid/{}/{}", lc(n), cname(case.c))) };
+            return if n == 0 { Outcome::trivial("n=0") } else { Outcome::pass(&format!("grid/{}/{}", lc(n), if case.c == C_MIXED { "mixed_width" } else { cname(case.c) })) };
         }
         let Some(prefix) = unhex(&case.d) else { return Outcome::skip("bad case") };
         let ext = case.n as usize;
@@ -164,7 +215,7 @@ pub fn utf8_spec(name: &str, kind: U8Kind, f: U8Fn, isolate: bool) -> Spec {
     };
     Spec {
         name: name.to_string(),
-        space: "UTF-8: ALL strings of length <= 4 (quick: <= 3) over the 18 boundary bytes {00,41,7F,80,8F,90,9F,A0,BF,C0,C2,E0,ED,EF,F0,F4,F5,FF} embedded at offset {0,13,29,61} of ASCII padding, either ending the buffer or padded to 96 bytes, buffer guard-ended (one case = a prefix of <= 2 bytes, extensions looped inside); plus every length 0..=260 x alignment {quick: 16; thorough: 0..63} + guard-ended x valid contents {ASCII, two-byte chars, embedded NUL} with 0xFF planted at EVERY position and a lead byte at the end; oracle: std::str::from_utf8 verdict and chars()/encode_utf16()".into(),
+        space: "UTF-8: ALL strings of length <= 4 (quick: <= 3) over the 18 boundary bytes {00,41,7F,80,8F,90,9F,A0,BF,C0,C2,E0,ED,EF,F0,F4,F5,FF} embedded at offset {0,13,29,61} of ASCII padding, either ending the buffer or padded to 96 bytes, buffer guard-ended (one case = a prefix of <= 2 bytes, extensions looped inside); plus every length 0..=260 x alignment {quick: 16; thorough: 0..63} + guard-ended x valid contents {ASCII, two-byte chars, embedded NUL, mixed 1/2/3/4-byte characters incl. U+80, U+7FF, U+800, U+D7FF, U+E000, U+FFFF, U+10000, U+10FFFF with the phase rotated by the length} with 0xFF planted at EVERY position and a lead byte at the end, and for the mixed-width text EVERY character replaced by an invalid sequence of its own length (80 / C0 AF / ED A0 80 / F4 90 80 80); oracle: std::str::from_utf8 verdict and chars()/encode_utf16()".into(),
         gen: Box::new(gen),
         run: Box::new(run),
         isolate,
@@ -196,6 +247,22 @@ pub fn content_text(c: u8, n: usize) -> Vec<u8> {
             i += 1;
         }
         v
+    } else if c == 5 {
+        // (coverage audit) byte runs of length 1,2,3,7,8,9,16,17,1,1 (around the 8-byte chunk of the BMI2 paths) over
+        // characters on both sides of the ASCII case / class boundaries
+        const LENS: [usize; 10] = [1, 2, 3, 7, 8, 9, 16, 17, 1, 1];
+        const CHARS: [u8; 10] = *b"aAzZ09 \t@_";
+        let mut v = Vec::with_capacity(n);
+        let mut r = 0usize;
+        while v.len() < n {
+            for _ in 0..LENS[r % 10] {
+                if v.len() < n {
+                    v.push(CHARS[(r * 7) % 10]);
+                }
+            }
+            r += 1;
+        }
+        v
     } else {
         content_str(c, n)
     }
@@ -205,7 +272,7 @@ pub fn xform_spec(name: &str, f: XformFn, oracle: XformFn, class: XformClass, wh
     let gen = move |tier: Tier, out: &mut dyn FnMut(Case) -> bool| {
         for n in all_lens() {
             for a in one_aligns(tier) {
-                for c in 0..5u8 {
+                for c in 0..6u8 {
                     if !out(Case { n, a, c, ..Default::default() }) {
                         return;
                     }
@@ -235,7 +302,7 @@ pub fn xform_spec(name: &str, f: XformFn, oracle: XformFn, class: XformClass, wh
     };
     Spec {
         name: name.to_string(),
-        space: format!("{what}: every input length 0..=260 x alignment {{quick: 16; thorough: 0..63}} + guard-ended x valid-UTF-8 contents {{ASCII ascending, two-byte chars U+00E0.., embedded NUL, mixed-case ASCII text, two-byte chars U+0100..U+017F}}; oracle: the scalar fallback definition in the same function"),
+        space: format!("{what}: every input length 0..=260 x alignment {{quick: 16; thorough: 0..63}} + guard-ended x valid-UTF-8 contents {{ASCII ascending, two-byte chars U+00E0.., embedded NUL, mixed-case ASCII text, two-byte chars U+0100..U+017F, byte runs of length 1,2,3,7,8,9,16,17}}; oracle: the scalar fallback definition in the same function"),
         gen: Box::new(gen),
         run: Box::new(run),
         isolate: false,
